@@ -428,6 +428,9 @@ func LostReceiverStores(c *Check, id string, rels ...string) {
 // its package that takes (or builds) a value of that type: the call is on that very value and precedes every return
 // that reports success — or the value is handed, as it is, to another function of the package that does so (one level).
 func DefaultsApplied(c *Check, id string, rels ...string) {
+	for _, rel := range rels {
+		defaultsFillNil(c, id, rel)
+	}
 	n := 0
 	for _, rel := range rels {
 		sp := c.P.Pkg(rel)
@@ -592,4 +595,159 @@ func refersToParam(v ssa.Value, prm *ssa.Parameter) bool {
 		return true
 	}
 	return false
+}
+
+// OptionalHooksGuarded: a configuration field of function type that neither setDefaults fills nor Validate demands is
+// optional; every call through it lies behind the edge on which that field was tested to be non-nil, and every test of it
+// that guards a call is of that polarity (a negated guard calls a nil function when the option is unset and skips the hook
+// when it is set).
+func OptionalHooksGuarded(c *Check, id string, rel string) {
+	sp := c.P.Pkg(rel)
+	if sp == nil {
+		return
+	}
+	required := map[*types.Var]bool{}
+	for _, fn := range c.P.SrcFuncsRaw(rel) {
+		if fn.Parent() != nil || fn.Signature.Recv() == nil {
+			continue
+		}
+		nm := fn.Name()
+		if nm != "setDefaults" && nm != "SetDefaults" && nm != "Validate" && nm != "validate" {
+			continue
+		}
+		rawInstrs(fn, func(in ssa.Instruction) {
+			if fa, ok := in.(*ssa.FieldAddr); ok {
+				if f, _ := FieldOf(fa); f != nil {
+					required[f] = true
+				}
+			}
+		})
+	}
+	n := 0
+	for _, fn := range c.P.SrcFuncs(rel) {
+		for _, cl := range CallsIn(fn) {
+			if cl.Common().IsInvoke() || CalleeFn(cl.Common()) != nil {
+				continue
+			}
+			if _, isB := cl.Common().Value.(*ssa.Builtin); isB {
+				continue
+			}
+			F := LoadedField(firstOrigin(cl.Common().Value))
+			if F == nil || F.Pkg() != sp.Pkg || !F.Exported() || required[F] || len(Origins(cl.Common().Value)) != 1 {
+				continue
+			}
+			if _, isSig := F.Type().Underlying().(*types.Signature); !isSig {
+				continue
+			}
+			n++
+			home := cl.Parent()
+			_, nonNil := NilEdges(home, func(v ssa.Value) bool { return AllOrigins(v, IsFieldLoad(F)) })
+			c.Report(len(nonNil) > 0 && GuardedBy(home, cl, nonNil), id, "OPTIONAL-HOOK-CALLED-ONLY-IF-SET", home, cl.Pos(), "call of "+F.Name(), "the optional hook is called only behind the edge on which it was found to be set (unset it is nil: the call would panic; with the test negated a configured hook never runs)")
+		}
+	}
+	if fs := c.P.SrcFuncs(rel); len(fs) > 0 {
+		c.Report(true, id, "OPTIONAL-HOOK-CALLS-SCANNED", fs[0], fs[0].Pos(), "package "+rel, fmt.Sprintf("%d calls through optional configuration hooks", n))
+	}
+	// … and the other way round: an interface-typed configuration field the package calls methods on without looking is
+	// one that setDefaults assigns or Validate tests
+	ensured := map[*types.Var]bool{}
+	cfgField := map[*types.Var]bool{}
+	for _, fn := range c.P.SrcFuncsRaw(rel) {
+		if fn.Parent() != nil || fn.Signature.Recv() == nil {
+			continue
+		}
+		switch fn.Name() {
+		case "setDefaults", "SetDefaults", "Validate", "validate":
+			if T := NamedOf(fn.Signature.Recv().Type()); T != nil {
+				if st, isS := T.Underlying().(*types.Struct); isS {
+					for i := 0; i < st.NumFields(); i++ {
+						cfgField[st.Field(i)] = true
+					}
+				}
+			}
+		}
+		switch fn.Name() {
+		case "setDefaults", "SetDefaults":
+			rawInstrs(fn, func(in ssa.Instruction) {
+				if st, ok := in.(*ssa.Store); ok {
+					if f, _ := FieldOf(st.Addr); f != nil && !IsNilConst(st.Val) {
+						ensured[f] = true
+					}
+				}
+			})
+		case "Validate", "validate":
+			for _, t := range Tests(fn) {
+				for _, v := range []ssa.Value{t.X, t.Y} {
+					if v != nil {
+						if f := LoadedField(firstOrigin(v)); f != nil {
+							ensured[f] = true
+						}
+					}
+				}
+			}
+		}
+	}
+	seenF := map[*types.Var]bool{}
+	for _, fn := range c.P.SrcFuncs(rel) {
+		for _, cl := range CallsIn(fn) {
+			if !cl.Common().IsInvoke() {
+				continue
+			}
+			F := LoadedField(firstOrigin(cl.Common().Value))
+			if F == nil || F.Pkg() != sp.Pkg || !F.Exported() || !cfgField[F] || seenF[F] || len(Origins(cl.Common().Value)) != 1 {
+				continue
+			}
+			home := cl.Parent()
+			_, nonNil := NilEdges(home, func(v ssa.Value) bool { return AllOrigins(v, IsFieldLoad(F)) })
+			if len(nonNil) > 0 && GuardedBy(home, cl, nonNil) {
+				continue
+			}
+			seenF[F] = true
+			c.Report(ensured[F], id, "FIELD-CALLED-WITHOUT-LOOKING-IS-ENSURED", home, cl.Pos(), "method call on "+F.Name(), "a configuration field the package calls methods on without a nil test is given a value by setDefaults or demanded by Validate")
+		}
+	}
+}
+
+// defaultsFillNil: inside a setDefaults method, a field that is tested against nil is given a non-nil value on the edge
+// on which it was found nil — and only there (the rest of the package calls through such a field without looking again).
+func defaultsFillNil(c *Check, id string, rel string) {
+	for _, fn := range c.P.SrcFuncsRaw(rel) {
+		if fn.Parent() != nil || fn.Signature.Recv() == nil || (fn.Name() != "setDefaults" && fn.Name() != "SetDefaults") {
+			continue
+		}
+		seen := map[*types.Var]bool{}
+		for _, t := range Tests(fn) {
+			if t.Y == nil || !IsNilConst(t.Y) && !IsNilConst(t.X) {
+				continue
+			}
+			v := t.X
+			if IsNilConst(t.X) {
+				v = t.Y
+			}
+			F := LoadedField(firstOrigin(v))
+			if F == nil || seen[F] {
+				continue
+			}
+			if _, base := FieldOf(loadAddr(firstOrigin(v))); base == nil || !FromParam(fn.Params[0])(base) {
+				continue
+			}
+			seen[F] = true
+			isNil, _ := NilEdges(fn, func(x ssa.Value) bool { return AllOrigins(x, IsFieldLoad(F)) })
+			stores := FieldStores(fn, F)
+			okFill := len(stores) > 0 && len(isNil) > 0
+			for _, st := range stores {
+				if !GuardedBy(fn, st, isNil) || IsNilConst(st.Val) || AnyOrigin(st.Val, IsFieldLoad(F)) {
+					okFill = false
+				}
+			}
+			c.Report(okFill, id, "DEFAULT-FILLS-THE-NIL-FIELD", fn, t.If.Pos(), "default for "+F.Name(), "setDefaults gives the field a non-nil value exactly on the edge on which it was found nil (the package calls through it without looking again)")
+		}
+	}
+}
+
+func loadAddr(v ssa.Value) ssa.Value {
+	if u, ok := v.(*ssa.UnOp); ok && u.Op == token.MUL {
+		return u.X
+	}
+	return nil
 }
